@@ -148,8 +148,9 @@ class Ctx:
             cands = {c.func.attr for t in tests for c in self_calls(t) if len(c.args) + len(c.keywords) == 2
                      and c.func.attr in fg.methods and len(fg.methods[c.func.attr].params) == 3 and c.func.attr != mfc.name}
             pf_name = next(iter(cands)) if len(cands) == 1 else None
-        if mf_name is None or pf_name is None:
-            raise AnalysisError(f"no function of {fg.qual} plays the role of `_get_meter_fallback_components` / `_is_primary_fallback_pair`")
+        if mf_name is None:
+            raise AnalysisError(f"no function of {fg.qual} plays the role of `_get_meter_fallback_components`")
+        # (no pair predicate: it may have been inlined; the pairing rule then reads the test itself)
         # the consumer formula: which variant `generate` selects, by what test
         cgen = cons.methods.get("generate")
         if cgen is None:
@@ -200,6 +201,14 @@ class Ctx:
                         for c in self_calls(deref(n.iter, d)):
                             if c.func.attr.startswith("_"):
                                 feeders.add(c.func.attr)
+        # ... except those that hold a generator's graph search: that is part of the generator's own behaviour
+        # and is executed in line (spliced) like any other extracted block
+        def searches(name: str) -> bool:
+            return any(name in c.methods and any(isinstance(x, ast.Call) and isinstance(x.func, ast.Attribute) and x.func.attr == "dfs"
+                                                   for x in ast.walk(c.methods[name].node))
+                       for c in prog.all_classes() if c.module.name.startswith(GEN))
+
+        feeders = {f for f in feeders if not searches(f)}
         self.feeders = feeders
         self.keep = {v for v in self.R.values() if v} | feeders
 
@@ -465,12 +474,16 @@ def check_meter(run: Run, cx: Ctx) -> None:
         run.check(ok, "C12.METER", ch.qual if ch else cg.qual, f"is_{kind}_chain = {leaf} or is_{kind}_meter",
                   f"`is_{kind}_chain` is not `{leaf} or is_{kind}_meter`", node=ch.node if ch else cg.node, file=cg.module.rel)
     fg = prog.cls(f"{GEN}._formula_generator:FormulaGenerator")
-    pf = fg.methods[cx.R["_is_primary_fallback_pair"]]
-    run.analysed(pf.qual)
-    c, _e = cx.predicate(pf)  # %1 = primary candidate, %2 = fallback candidate (by position)
-    want_pf = ("or", frozenset(("and", frozenset({("truthy", f"GRAPH.{leaf}(%2)"), ("truthy", f"GRAPH.is_{kind}_meter(%1)")}))
-                               for kind, leaf in KINDS.items()))
-    run.check(c == want_pf, "C12.METER", pf.qual, "each leaf kind paired with its own meter kind",
+    if cx.R["_is_primary_fallback_pair"] is not None:
+        pf = fg.methods[cx.R["_is_primary_fallback_pair"]]
+        run.analysed(pf.qual)
+        c, _e = cx.predicate(pf)  # %1 = primary candidate, %2 = fallback candidate (by position)
+        ok_pf = c == pair_form("%1", "%2")
+    else:
+        # inlined into the pairing loop: the test there must be this very predicate (see pairing_ok)
+        pf = cx.prep(fg.methods[cx.R["_get_metric_fallback_components"]])  # type: ignore[index]
+        ok_pf = pairing_ok(cx, pf)
+    run.check(ok_pf, "C12.METER", pf.qual, "each leaf kind paired with its own meter kind",
               "a device is paired as fallback with a meter of another kind (or a kind is missing)", node=pf.node, file=pf.file)
     mf = fg.methods[cx.R["_get_meter_fallback_components"]]
     run.analysed(mf.qual)
@@ -497,6 +510,13 @@ def check_meter(run: Run, cx: Ctx) -> None:
     run.analysed(mfc.qual)
     run.check(pairing_ok(cx, mfc), "C12.METER", mfc.qual, "meters -> their fallbacks; devices -> their single metering predecessor",
               "primary/fallback selection does not pair a device with its single predecessor meter", node=mfc.node, file=mfc.file)
+
+
+def pair_form(primary: str, fallback: str) -> Any:
+    """Canonical `primary/fallback pair`: some device kind's leaf holds of the fallback and that kind's dedicated
+    meter predicate holds of the primary."""
+    return ("or", frozenset(("and", frozenset({("truthy", f"GRAPH.{leaf}({fallback})"), ("truthy", f"GRAPH.is_{kind}_meter({primary})")}))
+                            for kind, leaf in KINDS.items()))
 
 
 def pairing_ok(cx: Ctx, fn: FuncInfo) -> bool:
@@ -536,13 +556,14 @@ def pairing_ok(cx: Ctx, fn: FuncInfo) -> bool:
     n_own = stmts(lambda s: assigns_entry(s, is_empty_set))
     # the key the device is filed under is read *given* what the rules below establish on the way to that
     # statement (single predecessor, primary/fallback pair): an optional "primary or None" value resolves
-    given = {("==", frozenset({"1", f"len({pred})"}))} | {("truthy", f"self.{pair_fn}({q}, {x})") for q in pops}
+    pair_atoms = {("truthy", f"self.{pair_fn}({q}, {x})") for q in pops} if pair_fn is not None else {pair_form(q, x) for q in pops}
+    given = {("==", frozenset({"1", f"len({pred})"}))} | pair_atoms
     n_add = stmts(lambda s: isinstance(s, ast.Expr) and txt(simplify_under(val(s.value), given))
                   in {f"{res}.setdefault({q}, set()).add({x})" for q in pops})
     meter = ("==", frozenset({f"{x}.category", METER}))
     e_m = edges_establishing(cfg, lambda a: a == meter, val, within=body)
     e_nm = edges_establishing(cfg, lambda a: a == ("!=", meter[1]), val, within=body)
-    e_pair = edges_establishing(cfg, lambda a: a in {("truthy", f"self.{pair_fn}({q}, {x})") for q in pops}, val, within=body)
+    e_pair = edges_establishing(cfg, lambda a: a in pair_atoms, val, within=body)
     e_len = edges_establishing(cfg, lambda a: a == ("==", frozenset({"1", f"len({pred})"})), val, within=body)
     t_pair = {e[0] for e in e_pair}
     if not (n_mf and n_own and n_add and e_m and e_nm and e_pair and e_len):
@@ -742,6 +763,26 @@ def union_over(e: ast.AST) -> tuple[ast.AST, str, ast.AST] | None:
             g = comp.generators[0]
             if isinstance(g.target, ast.Name) and not g.ifs and not g.is_async:
                 return g.iter, g.target.id, comp.elt
+    # functools.reduce(set.union / operator.or_ / lambda a, b: a | b, (f(x) for x in S), set())
+    # set(itertools.chain.from_iterable(f(x) for x in S))  /  set(chain(*(f(x) for x in S)))
+    comp = None
+    if isinstance(e, ast.Call) and txt(e.func) in ("functools.reduce", "reduce") and len(e.args) == 3 and not e.keywords \
+            and is_empty_set(e.args[2]) and (txt(e.args[0]) in ("set.union", "operator.or_", "or_", "frozenset.union") or (
+                isinstance(e.args[0], ast.Lambda) and len(e.args[0].args.args) == 2 and isinstance(e.args[0].body, ast.BinOp)
+                and isinstance(e.args[0].body.op, ast.BitOr)
+                and {txt(e.args[0].body.left), txt(e.args[0].body.right)} == {a.arg for a in e.args[0].args.args})):
+        comp = e.args[1]
+    elif isinstance(e, ast.Call) and isinstance(e.func, ast.Name) and e.func.id in ("set", "frozenset") and len(e.args) == 1 and not e.keywords \
+            and isinstance(e.args[0], ast.Call) and not e.args[0].keywords and len(e.args[0].args) == 1:
+        inner = e.args[0]
+        if txt(inner.func) in ("itertools.chain.from_iterable", "chain.from_iterable"):
+            comp = inner.args[0]
+        elif txt(inner.func) in ("itertools.chain", "chain") and isinstance(inner.args[0], ast.Starred):
+            comp = inner.args[0].value
+    if isinstance(comp, (ast.GeneratorExp, ast.ListComp, ast.SetComp)) and len(comp.generators) == 1:
+        g = comp.generators[0]
+        if isinstance(g.target, ast.Name) and not g.ifs and not g.is_async:
+            return g.iter, g.target.id, comp.elt
     if isinstance(e, ast.SetComp) and len(e.generators) == 2:
         g0, g1 = e.generators
         if all(isinstance(g.target, ast.Name) and not g.ifs and not g.is_async for g in (g0, g1)) and txt(e.elt) == txt(g1.target):
@@ -780,6 +821,30 @@ def loop_source(cx: Ctx, fn: FuncInfo, defs: dict[str, ast.AST], it: ast.AST) ->
             and len(e.args) == 1 and not e.keywords:
         e = e.args[0]  # the per-component lookup (fallback formulas) keyed by the components passed in
     return unwrap(e), enumerated
+
+
+def first_iteration_flag(cfg: CFG, h: int, body: set[int], entry: list[int]) -> tuple[str, bool, set[int]] | None:
+    """(name, its value during the first iteration, the nodes that flip it) of a boolean local that is a constant
+    before the loop and is set to the opposite constant on every path of every iteration."""
+    flips: dict[str, list[tuple[int, bool]]] = {}
+    for n in body:
+        a = cfg.nodes[n].ast
+        if cfg.nodes[n].kind == "stmt" and isinstance(a, ast.Assign) and len(a.targets) == 1 and isinstance(a.targets[0], ast.Name):
+            v = a.value.value if isinstance(a.value, ast.Constant) and isinstance(a.value.value, bool) else None
+            flips.setdefault(a.targets[0].id, []).append((n, v))  # type: ignore[arg-type]
+    for name, sets in sorted(flips.items()):
+        vals = {v for _n, v in sets}
+        if len(vals) != 1 or None in vals:
+            continue
+        later = next(iter(vals))
+        nodes = {n for n, _v in sets}
+        init = [d for d in reaching_defs(cfg, h, name) if d not in body]
+        if not init or not all(isinstance(cfg.nodes[d].ast, (ast.Assign, ast.AnnAssign)) and isinstance(cfg.nodes[d].ast.value, ast.Constant)  # type: ignore[union-attr]
+                               and cfg.nodes[d].ast.value.value is (not later) for d in init):  # type: ignore[union-attr]
+            continue
+        if all(e in nodes or cfg.path(e, [h], avoid=nodes, edge_ok=normal) is None for e in entry):
+            return name, not later, nodes
+    return None
 
 
 def check_emit(run: Run, cx: Ctx) -> None:
@@ -863,14 +928,27 @@ def check_emit(run: Run, cx: Ctx) -> None:
                     ok = all(e == on or cfg.path(e, [mn], avoid=[on], edge_ok=normal) is None for e in entry)
             else:
                 shape = "`+` before every term but the first"
-                ok = ok and signs == ["+"] and idx is not None
+                flag = first_iteration_flag(cfg, h, body, entry) if idx is None else None
+                ok = ok and signs == ["+"] and (idx is not None or flag is not None)
                 if ok:
-                    later = {("<", "0", idx), ("<=", "1", idx), ("!=", frozenset({idx, "0"})), ("truthy", idx)}
-                    first = {("==", frozenset({idx, "0"})), ("<", idx, "1"), ("<=", idx, "0"), ("not", ("truthy", idx))}
+                    if idx is not None:
+                        later = {("<", "0", idx), ("<=", "1", idx), ("!=", frozenset({idx, "0"})), ("truthy", idx)}
+                        first = {("==", frozenset({idx, "0"})), ("<", idx, "1"), ("<=", idx, "0"), ("not", ("truthy", idx))}
+                    else:
+                        # a boolean local that is set once per iteration: its value before that tells the first
+                        # iteration (initial value) from every later one
+                        assert flag is not None
+                        f_true, f_false = ("truthy", flag[0]), ("not", ("truthy", flag[0]))
+                        first, later = ({f_true}, {f_false}) if flag[1] else ({f_false}, {f_true})
                     e_later = edges_establishing(cfg, lambda a: a in later, val, within=body, total=True)
                     e_first = edges_establishing(cfg, lambda a: a in first, val, within=body, total=True)
-                    # the index is never rebound inside the iteration
-                    ok = not any(isinstance(x, ast.Name) and x.id == idx and isinstance(x.ctx, ast.Store) for s in loop.body for x in ast.walk(s))
+                    if idx is not None:
+                        # the index is never rebound inside the iteration
+                        ok = not any(isinstance(x, ast.Name) and x.id == idx and isinstance(x.ctx, ast.Store) for s in loop.body for x in ast.walk(s))
+                    else:
+                        # the flag is read before it is flipped
+                        ok = not any(cfg.path(a, [e[0]], avoid=[h], edge_ok=normal) is not None or a == e[0]
+                                     for a in flag[2] for e in list(e_later) + list(e_first))
                     # the operator is pushed only for idx > 0, and then always, before the term; never for idx == 0
                     ok = ok and bool(e_later) and not path_avoiding_edges(cfg, entry, [on], e_later, avoid=[h])
                     ok = ok and not path_avoiding_edges(cfg, entry, [mn], list(e_later) + list(e_first), avoid=[h])
